@@ -102,9 +102,23 @@ package loader
 //@   ensures parsed-once: result1 == nil ==> unmarshals(boxed(result0)) == old(unmarshals(boxed(result0))) + 1
 //@   ensures unmentioned-unset: result1 == nil && !mentioned(boxed(result0), "log_length") ==> result0.LogLength == 0
 //@   assigns unmarshals[*], mentioned[*]
+// C15: the processes of an extended (base) file get that file's directory as working directory when they have none,
+// a relative one is resolved against it, an absolute one is kept; nothing else of a process changes and none is
+// added or dropped.
 //@ func copyWorkingDirToProcesses
-//@   flag trusted
-//@   assigns types.ProcessConfig.WorkingDir[*], heap(MapVal.Str.types.ProcessConfig)
+//@   requires p != nil
+//@   ensures keys: forall n string :: n in p.Processes <==> old(n in p.Processes)
+//@   ensures empty-gets-base-dir: forall n string :: old(n in p.Processes) && old(p.Processes[n].WorkingDir) == "" ==> p.Processes[n].WorkingDir == wd
+//@   ensures absolute-kept: forall n string :: old(n in p.Processes) && old(p.Processes[n].WorkingDir) != "" && isAbsPath(old(p.Processes[n].WorkingDir)) ==> p.Processes[n].WorkingDir == old(p.Processes[n].WorkingDir)
+//@   ensures relative-resolved: forall n string :: old(n in p.Processes) && old(p.Processes[n].WorkingDir) != "" && !isAbsPath(old(p.Processes[n].WorkingDir)) ==> p.Processes[n].WorkingDir == joinPath(wd, old(p.Processes[n].WorkingDir))
+//@   ensures rest-kept: forall n string :: old(n in p.Processes) ==> p.Processes[n].Command == old(p.Processes[n].Command) && p.Processes[n].Name == old(p.Processes[n].Name) && p.Processes[n].Environment == old(p.Processes[n].Environment) && p.Processes[n].DependsOn == old(p.Processes[n].DependsOn) && p.Processes[n].Replicas == old(p.Processes[n].Replicas)
+//@   loop 1 invariant p.Processes == old(p.Processes)
+//@   loop 1 invariant forall n string :: n in p.Processes <==> old(n in p.Processes)
+//@   loop 1 invariant forall n string :: !seen(n) && n in p.Processes ==> p.Processes[n] == old(p.Processes[n])
+//@   loop 1 invariant forall n string :: seen(n) && old(n in p.Processes) ==> p.Processes[n].Command == old(p.Processes[n].Command) && p.Processes[n].Name == old(p.Processes[n].Name) && p.Processes[n].Environment == old(p.Processes[n].Environment) && p.Processes[n].DependsOn == old(p.Processes[n].DependsOn) && p.Processes[n].Replicas == old(p.Processes[n].Replicas) &&
+//@        (old(p.Processes[n].WorkingDir) == "" ==> p.Processes[n].WorkingDir == wd) &&
+//@        (old(p.Processes[n].WorkingDir) != "" && isAbsPath(old(p.Processes[n].WorkingDir)) ==> p.Processes[n].WorkingDir == old(p.Processes[n].WorkingDir)) &&
+//@        (old(p.Processes[n].WorkingDir) != "" && !isAbsPath(old(p.Processes[n].WorkingDir)) ==> p.Processes[n].WorkingDir == joinPath(wd, old(p.Processes[n].WorkingDir)))
 //@ func loadExtendProject
 //@   requires p != nil && opts != nil && 0 <= index && index <= len(opts.projects) && index <= len(opts.FileNames)
 //@   requires before-its-child: index == len(opts.projects) || opts.projects[index] == p
